@@ -92,7 +92,7 @@ pub fn judge_instance<T: Sc>(out: &mut CaseOut, stream: &str, case: u64, spec: &
     let s = spec.y.c;
     out.seen("families", fam);
     out.seen("scalar", T::NAME);
-    let Ok(prob) = build_problem::<T>(&spec, &SpyCtl::new()) else {
+    let Ok(prob) = build_problem_auto::<T>(&spec) else {
         violation(out, stream, case, "valid problem rejected", spec.to_json());
         return;
     };
